@@ -24,18 +24,29 @@ type Log = Arc<Mutex<Vec<String>>>;
 
 #[derive(Clone)]
 struct Sink(usize, Log);
-struct SinkWriter(usize, Log);
+struct SinkWriter(usize, Log, Option<usize>);
+/// in every other case the sinks accept only part of what they are handed (`io::Write::write` may do that); what one writer
+/// accepted in consecutive calls is logged as ONE write, so a caller that writes everything leaves the same log either way
+static SHORT: std::sync::atomic::AtomicBool = std::sync::atomic::AtomicBool::new(false);
 impl io::Write for SinkWriter {
-    fn write(&mut self, buf: &[u8]) -> io::Result<usize> { self.1.lock().unwrap().push(format!("{}:w{}", self.0, hex(buf))); Ok(buf.len()) }
+    fn write(&mut self, buf: &[u8]) -> io::Result<usize> {
+        let k = if SHORT.load(std::sync::atomic::Ordering::Relaxed) && buf.len() > 1 { (buf.len() * 2 / 3).max(1) } else { buf.len() };
+        let mut l = self.1.lock().unwrap();
+        match self.2 {
+            Some(i) if i < l.len() => l[i].push_str(&hex(&buf[..k])),
+            _ => { self.2 = Some(l.len()); l.push(format!("{}:w{}", self.0, hex(&buf[..k]))) }
+        }
+        Ok(k)
+    }
     fn flush(&mut self) -> io::Result<()> { Ok(()) }
 }
 fn tgt_index(m: &Metadata<'_>) -> usize { TARGETS.iter().position(|t| *t == m.target()).unwrap_or(99) }
 impl<'a> MakeWriter<'a> for Sink {
     type Writer = SinkWriter;
-    fn make_writer(&'a self) -> SinkWriter { self.1.lock().unwrap().push(format!("{}:p", self.0)); SinkWriter(self.0, self.1.clone()) }
+    fn make_writer(&'a self) -> SinkWriter { self.1.lock().unwrap().push(format!("{}:p", self.0)); SinkWriter(self.0, self.1.clone(), None) }
     fn make_writer_for(&'a self, m: &Metadata<'_>) -> SinkWriter {
         self.1.lock().unwrap().push(format!("{}:f{}.{}", self.0, rank_of(m), tgt_index(m)));
-        SinkWriter(self.0, self.1.clone())
+        SinkWriter(self.0, self.1.clone(), None)
     }
 }
 
@@ -202,6 +213,7 @@ fn main() {
         let s1 = toks.iter().position(|t| *t == ";;").expect(";;");
         let s2 = s1 + 1 + toks[s1 + 1..].iter().position(|t| *t == ";;").expect("second ;;");
         let log: Log = Arc::new(Mutex::new(Vec::new()));
+        SHORT.store(toks.len() % 2 == 1, std::sync::atomic::Ordering::Relaxed);
         let mut p = 0;
         let w = build(&toks[s1 + 1..s2], &mut p, &log);
         let d = build_dispatch(&toks[..s1], w);
